@@ -82,6 +82,13 @@ class AddrOf:
         self.d = d
 
 
+class LambdaVal:
+    """closure value of a local lambda: the Lambda node and the values of its by-copy captures at creation"""
+
+    def __init__(self, node, snap):
+        self.node, self.snap = node, snap
+
+
 class LocalArr:
     """function-local C array of constant extent (`bool skip[BlockSize_]`, `DT_ nrm[3]`): per-element values.  Stores to it are
     local bookkeeping, not part of the footprint; reads yield the value last stored (guards kept in such an array are thereby
@@ -435,6 +442,8 @@ class Exec:
             if op == "+" and isinstance(b, Arr) and not isinstance(a, Arr):
                 return b.shifted(self.scalar(a, pc))
             return self.arith(op, self.scalar(a, pc), self.scalar(b, pc), n)
+        if k == "Lambda":
+            return LambdaVal(n, {c_["d"]: env[c_["d"]] for c_ in n.get("captures", []) if not c_.get("byref") and c_.get("d") in env})
         if k == "Assign":
             return self.assign(n, env, pc)
         if k == "OpCall":
@@ -530,6 +539,26 @@ class Exec:
         op = n["op"]
         a = n.get("a", [])
         callee = n.get("callee", "")
+        if op == "()" and a and a[0].get("k") == "Ref" and isinstance(env.get(a[0].get("d")), LambdaVal):
+            # call of a local lambda: its body is executed in place with the captured variables bound
+            lam = env[a[0]["d"]]
+            caps = lam.node.get("captures", [])
+            extra = {}
+            for c_ in caps:
+                if c_.get("d") is None:
+                    continue
+                if c_.get("byref"):
+                    if c_["d"] not in env:
+                        raise Incomplete("lambda captures %s, which is not bound" % c_.get("n"))
+                    extra[c_["d"]] = env[c_["d"]]
+                elif c_["d"] in lam.snap:
+                    extra[c_["d"]] = lam.snap[c_["d"]]
+            f = self.by_decl.get(lam.node.get("op_decl"))
+            body = f.body if f is not None else None
+            for x in walk(body or {}):
+                if any(self._modifies(x, c_["d"]) for c_ in caps if c_.get("d") is not None):
+                    raise Incomplete("lambda %s modifies a captured variable" % a[0].get("n"))
+            return self.inline(dict(n, a=a[1:], cdecl=lam.node.get("op_decl")), env, pc, extra=extra)
         if op in ("[]", "()") and len(a) == 2 and re.match(r"^FEAT::Tiny::(Vector|Matrix)<", callee):
             base = self.ev(a[0], env, pc)
             if isinstance(base, sp.Expr) and a[0].get("k") == "Ref" and a[0].get("d") in env:
@@ -637,13 +666,13 @@ class Exec:
             return None
         raise Incomplete("call %s" % render(n)[:100])
 
-    def inline(self, n, env, pc):
+    def inline(self, n, env, pc, extra=None):
         f = self.by_decl.get(n.get("cdecl"))
         if f is None or f.body is None:
             raise Incomplete("body of %s not in the fact base" % n.get("cfull"))
         if self.inline_depth > 6:
             raise Incomplete("inlining depth")
-        env2 = {}
+        env2 = dict(extra or {})
         for p, a in zip(f.params, n.get("a", [])):
             val = self.rv(self.ev(a, env, pc), pc)
             pty = f.type(p["t"]).replace("const", "").strip()
@@ -1638,6 +1667,21 @@ SLOT = {  # callee parameter name -> (owner, accessor)   [DESIGN A.1, from the d
 }
 
 
+def zero_count_test(c, is_count, unwrap):
+    """condition c is true exactly if the (unsigned) entry count is zero: n == 0, 0 == n, !n, n < 1, n <= 0, 1 > n, 0 >= n"""
+    c = unwrap(c)
+    if c.get("k") == "Un" and c.get("op") == "!":
+        return is_count(c["e"])
+    if c.get("k") != "Bin":
+        return False
+    l, r, op = unwrap(c["lhs"]), unwrap(c["rhs"]), c["op"]
+    if is_count(r) and not is_count(l):
+        l, r, op = r, l, {"<": ">", ">": "<", "<=": ">=", ">=": "<=", "==": "=="}.get(op)
+    if not (is_count(l) and r.get("k") == "Int" and op):
+        return False
+    return (op, r["v"]) in (("==", "0"), ("<", "1"), ("<=", "0"))
+
+
 def dispatcher_targets(dfn, by_decl):
     """Arch dispatcher -> (list of generic kernels it forwards to, problems).  Every path must forward, arguments pass
     through to the like-named parameter."""
@@ -1647,6 +1691,29 @@ def dispatcher_targets(dfn, by_decl):
     struct = dfn.cls
     own = {p["n"] for p in dfn.params}
     fw = []
+
+    def unwrap(e):
+        while e is not None and (e.get("k") == "Cast" or (e.get("k") in ("Construct", "TempObj") and len(e.get("a", [])) == 1)):
+            e = e["e"] if e.get("k") == "Cast" else e["a"][0]
+        return e or {}
+    # named temporaries: a never re-assigned local initialised with a parameter stands for that parameter
+    modified = {(x.get("lhs") or x.get("e") or {}).get("d") for x in dfn.nodes() if x.get("k") in ("Assign", "Un") and x.get("op") in ("=", "+=", "-=", "*=", "/=", "++", "--")}
+    alias = {}
+    for x in dfn.nodes():
+        if x.get("k") == "Var" and x.get("init") is not None and x.get("d") not in modified:
+            e = unwrap(x["init"])
+            if e.get("k") == "Ref" and e.get("dk") == "param" and e.get("n") in own and e.get("d") not in modified:
+                alias[x["d"]] = e["n"]
+            elif e.get("k") == "Ref" and e.get("d") in alias:
+                alias[x["d"]] = alias[e["d"]]
+
+    def param_of(a):
+        a = unwrap(a)
+        if a.get("k") == "Ref" and a.get("dk") == "param" and a.get("n") in own:
+            return a["n"]
+        if a.get("k") == "Ref" and a.get("d") in alias:
+            return alias[a["d"]]
+        return None
     for c in dfn.calls():
         cal = c.get("callee", "")
         if cal == "FEAT::Backend::get_preferred_backend":
@@ -1654,9 +1721,10 @@ def dispatcher_targets(dfn, by_decl):
         if c.get("ccls") == struct and re.search(r"_(generic|cuda|mkl)$", cal):
             fw.append(c)
             for pn, a in zip(c.get("pn", []), c.get("a", [])):
-                if a.get("k") == "Ref" and a.get("dk") == "param" and a.get("n") in own and a.get("n") != pn:
+                got = param_of(a)
+                if got is not None and got != pn:
                     probs.append("line %s: %s receives the dispatcher's '%s' in parameter slot '%s'" % (c.get("l"), cal.rsplit("::", 1)[-1], render(a), pn))
-                elif not (a.get("k") == "Ref" and a.get("dk") == "param" and a.get("n") == pn):
+                elif got is None:
                     raise Incomplete("dispatcher %s passes %s for slot '%s'" % (dfn.full, render(a), pn))
             t = by_decl.get(c.get("cdecl"))
             if t is None:
@@ -1666,6 +1734,22 @@ def dispatcher_targets(dfn, by_decl):
         else:
             raise Incomplete("dispatcher %s calls %s" % (dfn.full, cal))
     ids = {c["i"] for c in fw}
+    # `if(ue == 0) return;` - nothing to filter: an early-out under the emptiness test of the entry count is no missing kernel call
+    for x in dfn.nodes():
+        if x.get("k") == "If" and not x.get("else"):
+            th = x["then"]
+            if th.get("k") == "Block" and len(th.get("s", [])) == 1:
+                th = th["s"][0]
+            if th.get("k") == "Return" and th.get("e") is None and "i" in th:
+                if zero_count_test(x["c"], lambda a: param_of(a) == "ue", unwrap):
+                    ids.add(th["i"])
+                else:
+                    cc = unwrap(x["c"])
+                    sides = [unwrap(cc.get("lhs")), unwrap(cc.get("rhs"))] if cc.get("k") == "Bin" and cc.get("op") in ("<", "<=", ">", ">=", "==", "!=") else []
+                    if len(sides) == 2 and any(param_of(a) == "ue" for a in sides) and any(a.get("k") == "Int" for a in sides):
+                        # threshold on the entry count that is not the emptiness test: a definite defect, not an unknown construct
+                        probs.append("line %s: the dispatcher returns without calling a kernel under `%s`, which is not the test for an empty filter: filters with that many entries are silently not applied" % (x.get("l"), render(x["c"])[:60]))
+                        ids.add(th["i"])
     if dfn.cfg is None:
         raise Incomplete("no CFG for %s" % dfn.full)
     ok, bad = dfn.cfg.must_pass(lambda n: n.get("i") in ids)
